@@ -149,6 +149,33 @@ def task_ladders(t):
     return {'viol': [v.to_json() for v in out], 'nviol': len(out), 'n': len(items), 'hits': hits, 'nontrivial': hits.get('valid', 0)}
 
 
+# ---- the signature iterator: what the public API says a valid signature consists of -------------------------------
+
+def task_sigwalk(sigs):
+    """For every VALID signature: walking it with DBusSignatureIter (current type, recurse, element type, next,
+    get_signature) rebuilds exactly the signature, and the single complete types it reports are the grammar's."""
+    h = worker_harness('vbox')
+    out, hits = [], {}
+    n = 0
+    for sg in sigs:
+        if not sg or G.is_gray('sig', sg) or not G.is_valid('sig', sg):
+            continue
+        case = {'phase': 'sigwalk', 'string': sg.hex()}
+        try:
+            r = h.cmd('SIGWALK ' + sg.decode('latin-1'))
+        except HarnessDied as e:
+            out.append(crash_violation(e, case))
+            continue
+        n += 1
+        kv = parse_kv(r)
+        want_parts = b','.join(G.split_signature(sg)) + b','
+        if not r.startswith('OK') or kv.get('recon', '').encode('latin-1') != sg or kv.get('bad') != '0' or kv.get('parts', '').encode('latin-1') != want_parts:
+            out.append(Violation('signature-api-disagrees', 'iterator', 'walking the valid signature %r with DBusSignatureIter gives %s (expected recon=%s bad=0 parts=%s)' %
+                                 (sg, r[:200], sg.decode('latin-1'), want_parts.decode('latin-1')), case))
+    hits['sigwalk'] = n
+    return {'viol': [v.to_json() for v in out[:20]], 'nviol': len(out), 'n': n, 'hits': hits, 'nontrivial': n}
+
+
 # ---- the same strings inside messages ------------------------------------
 
 def embed_in_message(kind, s):
@@ -310,6 +337,10 @@ def build_tasks(tier):
         tasks.append((task_valenum, ('utf8', UTF8_ALPHA, 4, a)))
         tasks.append((task_valenum, ('utf8', UTF8_ALPHA, 4 if tier == 'quick' else 5, b'a' + a)))
     lad = ladder_strings()
+    walk = [sg for sg in enum_strings(SIG_SMALL, 5 if tier == 'quick' else 6)] + [sg for k, sg in lad if k == 'sig'] + \
+           [bytes([c]) for c in b'ybnqiuxtdsoghv'] + [b'a' + bytes([c]) for c in b'ybnqiuxtdsoghv'] + [b'a{' + bytes([c]) + b'v}' for c in b'ybnqiuxtdsogh']
+    for i in range(0, len(walk), 3000):
+        tasks.append((task_sigwalk, walk[i:i + 3000]))
     # messages: all strings <= 3 (quick) / 4 over the class alphabet per kind + ladders
     mlen = 3 if tier == 'quick' else 4
     for kind in NAME_KINDS:
@@ -335,7 +366,8 @@ def build_tasks(tier):
     for kind in ('bus', 'iface', 'member', 'path', 'sender'):
         for p in SPECIAL_PREFIXES:
             items += [(kind, s) for s in enum_strings(BUS_ALPHA, len(p) + (1 if tier == 'quick' else 2), p)]
-    items += [(k, s) for k, s in lad if k in ('bus', 'iface', 'member', 'path') and len(s) < 900]
+    # (strings that are not UTF-8 text make the carrying MESSAGE invalid - the message route judges those; here the sender is simply dropped)
+    items += [(k, s) for k, s in lad if k in ('bus', 'iface', 'member', 'path') and len(s) < 900 and all(0 < c < 0x80 for c in s)]
     for i in range(0, len(items), 300):
         tasks.append((task_bus, items[i:i + 300]))
     return tasks
@@ -400,6 +432,9 @@ def replay(case):
             except HarnessDied as e:
                 out.append(crash_violation(e, case))
         return out
+    if case['phase'] == 'sigwalk':
+        r = task_sigwalk([bytes.fromhex(case['string'])])
+        return [Violation.from_json(v) for v in r['viol']]
     if case['phase'] == 'message':
         r = task_messages([(case['kind'], bytes.fromhex(case['string']))])
         return [Violation.from_json(v) for v in r['viol']]
